@@ -473,6 +473,10 @@ static const char *map_function_name(const char *name, Environment *env) {
 static Type infer_array_element_type(ASTNode *array_expr, Environment *env) {
     if (!array_expr) return TYPE_UNKNOWN;
 
+    /* (at g i) of an array<array<T>> */
+    Type nested_elem = nested_array_element_type(array_expr, env);
+    if (nested_elem != TYPE_UNKNOWN) return nested_elem;
+
     if (array_expr->type == AST_IDENTIFIER) {
         Symbol *sym = env_get_var(env, array_expr->as.identifier);
         if (sym && sym->type == TYPE_ARRAY && sym->element_type != TYPE_UNKNOWN) {
@@ -2801,6 +2805,15 @@ static void build_expr(WorkList *list, ASTNode *expr, Environment *env) {
                         build_expr(list, expr->as.array_literal.elements[i], env);
                     }
                     emit_literal(list, ")");
+                } else if (elem_type == TYPE_ARRAY) {
+                    /* An array of arrays is built row by row */
+                    emit_literal(list, "({ DynArray* _rows = dyn_array_new(ELEM_ARRAY); ");
+                    for (int i = 0; i < count; i++) {
+                        emit_literal(list, "dyn_array_push_array(_rows, ");
+                        build_expr(list, expr->as.array_literal.elements[i], env);
+                        emit_literal(list, "); ");
+                    }
+                    emit_literal(list, "_rows; })");
                 } else {
                     /* For other types, fallback to old behavior */
                     const char *c_type = type_to_c(elem_type);
